@@ -470,6 +470,16 @@ def run(tier, seed):
     check_dict_order(c)
     run_sort(c, u, rng, quick)
     run_dsort(c, u, rng, quick)
+    # ints beyond the float range (cmp converts ints to float first): outside the deductive contract's |i| <= 2**53 universe
+    from pyg_base import cmp as _cmp
+    for big in (10 ** 400, -10 ** 400):
+        try:
+            r = _cmp(big, 1)
+            ok = r in (-1, 0, 1)
+        except OverflowError:
+            ok = False
+        c.check(ok, 'C07:cmp:never-raises:int-beyond-float-range', 'cmp(%s10**400, 1) raised OverflowError (int too large to convert to float)' % ('-' if big < 0 else ''), None)
+        c.case(('bigint', big > 0))
     return c.result()
 
 
